@@ -8,6 +8,7 @@ import (
 	"os"
 	"path/filepath"
 	"sync"
+	"time"
 
 	"cedarverif/internal/core"
 	"cedarverif/internal/fsreplay"
@@ -16,6 +17,9 @@ import (
 )
 
 func init() { core.Register("C18", run) }
+
+// generous: TLC shares the machine with other checks
+const tlcTimeout = 45 * time.Minute
 
 func run(c *core.Ctx) {
 	c.Assume("the client side is reachable only in local mode through the public API (performAuthentication never passes remote=true); FS_REMOTE_ names on a local exchange are 'either' in FSAuth.tla")
@@ -32,17 +36,17 @@ func run(c *core.Ctx) {
 	}
 	// model checking and behaviour generation are independent: run them side by side
 	var wg sync.WaitGroup
-	if c.Replay == "" && os.Getenv("VERIF_DEV_SKIPMC") == "" {
+	if c.Replay == "" {
 		wg.Add(1)
 		go func() {
 			defer wg.Done()
-			kit.ModelCheck(c, "FSAuth.tla", mc, tlc.Options{Workers: 12})
+			kit.ModelCheck(c, "FSAuth.tla", mc, tlc.Options{Workers: 12, Timeout: tlcTimeout})
 		}()
 	}
 	if c.Replay != "" {
 		gen = "Gen_C18_quick.cfg"
 	}
-	raws := kit.Generate(c, "Gen_FSAuth.tla", gen, tlc.Options{})
+	raws := kit.Generate(c, "Gen_FSAuth.tla", gen, tlc.Options{Timeout: tlcTimeout})
 	wg.Wait()
 	if c.IsBroken() {
 		return
